@@ -28,7 +28,7 @@ import (
 func verifSpareContacts() []*flows.ContactReference {
 	refs := make([]*flows.ContactReference, 3, 4)
 	for k := range refs {
-		refs[k] = flows.NewContactReference(flows.ContactUUID(verifFlowUUID(20+k)), "C")
+		refs[k] = flows.NewContactReference(flows.ContactUUID(verifID('c', 0, 0, k)), "C")
 	}
 	return refs
 }
@@ -45,8 +45,8 @@ func VerifC09_SharedAssets() {
 	env := envs.NewBuilder().WithAllowedLanguages("eng", "spa").Build()
 	sa := verifNewAssets()
 	sa.fields = flows.NewFieldAssets([]assets.Field{&verifFieldAsset{"nick", assets.FieldTypeText}})
-	g := flows.VerifQueryGroup(env, sa.fields, "g-name", "Named", contactql.NewCondition(contactql.PropertyTypeAttribute, contactql.AttributeName, contactql.OpNotEqual, ""))
-	sa.groups, _ = flows.VerifGroupAssets(env, sa.fields, g, flows.VerifStaticGroup("g-s", "Static"))
+	g := flows.VerifQueryGroup(env, sa.fields, "b0000000-0000-4000-8000-000000000001", "Named", contactql.NewCondition(contactql.PropertyTypeAttribute, contactql.AttributeName, contactql.OpNotEqual, ""))
+	sa.groups, _ = flows.VerifGroupAssets(env, sa.fields, g, flows.VerifStaticGroup("b0000000-0000-4000-8000-000000000002", "Static"))
 	loc := definition.NewLocalization()
 	loc.SetItemTranslation("spa", "a2", "text", []string{"hola @contact.name"})
 	loc.SetItemTranslation("spa", "c0", "name", []string{"Rojo"})
@@ -74,7 +74,10 @@ func VerifC09_SharedAssets() {
 	zzverif.FreezeGlobals()
 	lang := []string{"eng", "spa"}[zzverif.Choice("contact-language", 2)]
 	restart := zzverif.Choice("restart-at-wait", 2) == 1
-	text := []string{"red", "blue"}[zzverif.Choice("reply", 2)]
+	// the reply: an arbitrary ASCII character followed by "ed" (it decides the route taken after the wait)
+	first := zzverif.Byte("reply-first-character")
+	zzverif.Assume(first != 0 && first < 0x80)
+	text := string([]byte{first}) + "ed"
 	zzverif.Parallel(8, func(w int) {
 		contact := flows.NewEmptyContact(sa, "", "", nil)
 		contact.SetLanguage(envLang(lang))
